@@ -94,6 +94,11 @@ func RequiredFieldUncompressed(r *RequiredField) {
 
 // DoWrite writes the actual raw data.
 func (f *RequiredField) DoWrite(w io.Writer, meta *Metadata, vals []byte, count int, stats Stats) error {
+	if count == 0 {
+		// nothing was added since the last write: don't emit an empty page
+		return nil
+	}
+
 	buff := buffpool.Get()
 	defer buffpool.Put(buff)
 
@@ -230,6 +235,11 @@ func (f *OptionalField) valsFromDefs(defs []uint8, max uint8) int {
 // DoWrite is called by all optional field types to write the definition levels
 // and raw data to the io.Writer
 func (f *OptionalField) DoWrite(w io.Writer, meta *Metadata, vals []byte, count int, stats Stats) error {
+	if count == 0 {
+		// nothing was added since the last write: don't emit an empty page
+		return nil
+	}
+
 	buf := buffpool.Get()
 	defer buffpool.Put(buf)
 	wc := &writeCounter{w: buf}
